@@ -8,6 +8,7 @@ for spec in "$@"; do
     *e) base=${id%e}; wt=/tmp/wt5_$base;;
     *f) base=${id%f}; wt=/tmp/wt6_$base;;
     *g) base=${id%g}; wt=/tmp/wt7_$base;;
+    *h) base=${id%h}; wt=/tmp/wt8_$base;;
   esac
   bash /verif/tools/confirm_seeded.sh $id $wt $tests
 done
